@@ -19,6 +19,7 @@ RULE = (
     "codes enumerated exhaustively over -33100..-31900 and -200..200 for every discovered helper, plus Hypothesis-drawn signed/unsigned "
     "64-bit codes and error shapes; oracle = pinned documented permanent-code set; non-trivial = code is not one of the named constants, "
     "or data present, or message absent; distinct = distinct (helper, code, shape)"
+    "; round 8: the same call answered with a result first and with the error the second time; a peer that reads nothing after answering (unbuffered write stream)"
     "; added in rounds 6-7 of the seeded changes: consecutive calls on one connection (all ordered pairs of named codes); own-token progress before the error with raising / stalling callbacks; logging at DEBUG"
 )
 ASSUMPTIONS = [
@@ -253,8 +254,54 @@ def check(case: Dict[str, Any]) -> Outcome:
     if case.get("progress_before") and target == "send_message" and not peer:
         # the server reported progress (the request's own token) shortly before it failed
         sched.insert(0, (max(0.01, t_err - 0.04), {"jsonrpc": "2.0", "method": "notifications/progress", "params": {"progressToken": "$TOKEN", "progress": 1, "total": 2, "message": "half"}}))
+    dkw: Dict[str, Any] = {}
+    staged = bool(case.get("after_success") or case.get("peer_stops_reading")) and not peer
+    n_ok = 1 if case.get("after_success") else 0
+    if staged:
+        # after_success: the same call made twice on one connection, the first answered with a result, the second with the error;
+        # peer_stops_reading: the peer answers with the error and reads nothing further (its input buffer may never drain)
+        inner2 = call
+
+        async def call(r, w):  # type: ignore[no-redef]
+            for _ in range(n_ok):
+                try:
+                    await inner2(r, w)
+                except Exception:  # noqa  (what the first call does with its result is not this case's subject)
+                    pass
+            return await inner2(r, w)
+
+        async def side(res_, rec):
+            import asyncio as _a
+
+            from ..drive import to_message, wire_of
+            from ..helpers import valid_result_for
+
+            seen = 0
+            for _ in range(4000):
+                reqs_ = [wire_of(it) for _t, it in rec.items]
+                reqs_ = [q for q in reqs_ if isinstance(q, dict) and "method" in q and q.get("id") is not None]
+                if len(reqs_) > seen:
+                    q = reqs_[seen]
+                    seen += 1
+                    await _a.sleep(t_err)
+                    if seen <= n_ok:
+                        res_.inject(to_message({"jsonrpc": "2.0", "id": q["id"], "result": valid_result_for(q["method"]) or {}}))
+                    else:
+                        if case.get("peer_stops_reading"):
+                            rec.stop_reading()
+                        res_.inject(to_message(dict(item, id=q["id"])))
+                        return
+                await _a.sleep(0.01)
+
+        sched = []
+        dkw["side"] = side
+    if case.get("peer_stops_reading") and not peer:
+        dkw.update(write_capacity=0, max_vtime=600.0)
     with debug_logging(bool(case.get("debug_log"))):  # (the application may run with logging.basicConfig(level=DEBUG))
-        res = drive(call, sched)
+        res = drive(call, sched, **dkw)
+    if res.outcome == "hang":
+        out.fail("call-never-finished-after-the-error-response", f"{target} code={code}: still pending at t={res.t_end}")
+        return out
 
     out.nontrivial = (code not in NAMED) or has_data or msg is None
     out.key = {"target": target, "code": code, "message": msg, "data": case.get("data", "$absent")}
@@ -264,7 +311,7 @@ def check(case: Dict[str, Any]) -> Outcome:
         "data" if has_data else "nodata",
         "nomessage" if msg is None else "message",
         "bool-helper" if target in BOOL_HELPERS else "raising-helper",
-    ) + (("on-poll-boundary",) if not peer and case.get("t_err", 10) in (50, 100) else ()) + (("typed-class",) if case.get("typed") and msg is not None else ()) + (("peer-waiter",) if peer else ()) + tuple("opt:" + o for o in opts if target == "send_message") + (("progress-reported-before-the-error",) if case.get("progress_before") else ()) + (("logging:DEBUG",) if case.get("debug_log") else ())
+    ) + (("on-poll-boundary",) if not peer and case.get("t_err", 10) in (50, 100) else ()) + (("typed-class",) if case.get("typed") and msg is not None else ()) + (("peer-waiter",) if peer else ()) + tuple("opt:" + o for o in opts if target == "send_message") + (("progress-reported-before-the-error",) if case.get("progress_before") else ()) + (("logging:DEBUG",) if case.get("debug_log") else ()) + (("same-call-succeeded-before",) if n_ok and staged else ()) + (("peer-reads-nothing-after-answering",) if case.get("peer_stops_reading") and not peer else ())
 
     r = is_retryable_error(code)
     if not isinstance(r, bool):
@@ -298,7 +345,7 @@ def check(case: Dict[str, Any]) -> Outcome:
         out.fail("wrong-error-class", f"{target} code={code}: raised {type(exc).__name__}, documented {want_cls.__name__}")
     if msg is not None and msg not in str(exc):
         out.fail("server-message-lost", f"{target} code={code}: message {msg!r} not in {str(exc)!r}")
-    if not peer and abs(res.t_end - t_err) > 1e-6:
+    if not peer and not staged and abs(res.t_end - t_err) > 1e-6:
         out.fail("error-not-raised-on-arrival", f"t_end={res.t_end}")
     return out
 
@@ -361,6 +408,10 @@ def job_enum(col: Collector, seed: int, tier: str, shard: int, nshards: int) -> 
                     case = {"target": target, "code": code, "message": f"m{code}", "debug_log": True, **extra_}
                     col.record(case, check(case))
             if code in NAMED:
+                for extra_ in ({"after_success": True}, {"peer_stops_reading": True}, {"after_success": True, "peer_stops_reading": True}, {"after_success": True, "typed": True}, {"peer_stops_reading": True, "message": None}):
+                    case = {"target": target, "code": code, "message": f"m{code}", **extra_}
+                    col.record(case, check(case))
+            if code in NAMED:
                 for typed_, peer_ in ((True, False), (False, True), (True, True)):
                     case = {"target": target, "code": code, "message": f"m{code}", "typed": typed_, "peer": peer_}
                     col.record(case, check(case))
@@ -413,6 +464,10 @@ def cases(draw):
         case["peer"] = True
     if draw(st.integers(0, 3)) == 0:
         case["debug_log"] = True
+    if not case.get("peer") and draw(st.integers(0, 3)) == 0:
+        case["after_success"] = True
+    if not case.get("peer") and draw(st.integers(0, 3)) == 0:
+        case["peer_stops_reading"] = True
     if target == "send_message" and draw(st.booleans()):
         case["opts"] = draw(st.lists(st.sampled_from(["token", "progress", "progress_raises", "progress_raises_later", "progress_slow_later"]), min_size=1, max_size=2, unique=True))
         if any(o.startswith("progress") for o in case["opts"]) and draw(st.booleans()):
